@@ -111,9 +111,57 @@ def registration_semantics():
     return out
 
 
+def different_registrations():
+    """two live sessions holding DIFFERENT custom types of the same kind, traffic interleaved in every order"""
+    out = []
+    o = M.PackingOptions()
+
+    def search(f):
+        return M.SearchRequest(message_id=4, controls=[], base_object="", scope=M.SearchScope.BASE, deref_aliases=M.DereferencingPolicy.NEVER,
+                               size_limit=0, time_limit=0, types_only=False, filter=f, attributes=[]).pack(o)
+
+    kinds = {
+        "filter": (lambda s, c: s.register_filter(c), CT.CustomFilter, CT.CustomFilter2,
+                   lambda c: search(sansldap.FilterAnd([c(value="v")])), lambda ms: type(ms[0].filter.filters[0])),
+        "auth": (lambda s, c: s.register_auth_credential(c), CT.CustomAuth, CT.CustomAuth2,
+                 lambda c: M.BindRequest(message_id=5, controls=[], version=3, name="", authentication=c(value="u")).pack(o),
+                 lambda ms: type(ms[0].authentication)),
+        "control": (lambda s, c: s.register_control(c), CT.CustomControl, CT.CustomControl2,
+                    lambda c: M.ExtendedRequest(message_id=3, controls=[c(critical=False, data=b"d")], name="1.2", value=None).pack(o),
+                    lambda ms: type(ms[0].controls[0])),
+    }
+    import itertools
+    for what, (reg, X, Y, make, typ) in kinds.items():
+        # every order of: A decodes X, A decodes Y, B decodes X, B decodes Y  (each on a fresh pair; A registered X, B registered Y)
+        steps = [("A", X), ("A", Y), ("B", X), ("B", Y)]
+        for perm in itertools.permutations(steps, 2):
+            a, b = sansldap.LDAPServer(), sansldap.LDAPServer()
+            reg(a, X)
+            reg(b, Y)
+            for who, cls in perm:
+                s = sansldap.LDAPServer() if False else (a if who == "A" else b)
+                if s.state.name == "CLOSED":
+                    continue
+                own = X if who == "A" else Y
+                try:
+                    ms = s.receive(make(cls))
+                    got = typ(ms)
+                    res = "typed" if got is cls else ("generic" if what == "control" and got is sansldap.LDAPControl else f"other:{got.__name__}")
+                except sansldap.ProtocolError:
+                    res = "ProtocolError"
+                except BaseException as e:  # noqa: BLE001
+                    res = "Other:" + type(e).__name__
+                want = "typed" if cls is own else ("generic" if what == "control" else "ProtocolError")
+                if res != want:
+                    out.append({"key": None, "what": f"two sessions with different custom {what} registrations interfere: session {who} "
+                                f"(registered {own.__name__}) handling {cls.__name__} bytes gave {res}, expected {want}",
+                                "order": [f"{w}:{c.__name__}" for w, c in perm]})
+    return out
+
+
 def run(ctx):
     rng = ctx.rng
-    violations = registration_semantics()
+    violations = registration_semantics() + different_registrations()
     hist = collections.Counter()
     distinct = set()
     n_groups = ctx.scale(60, 1500)
